@@ -134,7 +134,7 @@ theorem framesAccepted : net.FramesAccepted := by
     subst hg
     rw [quorum_one]
     unfold Net.causedWeight
-    rw [weight_one _ ⟨g - 1, (isRoot_iff _ _).2 ⟨by omega, by omega⟩, creator_zero _, (fc_iff _ _).2 ⟨by omega, he3⟩, trivial⟩]
+    rw [weight_one _ ⟨g - 1, (isRoot_iff _ _).2 ⟨by omega, by omega⟩, creator_zero _, (fc_iff _ _).2 ⟨by omega, he3⟩, by omega⟩]
     exact Nat.le_refl _
 
 theorem bft : net.BFT := by
@@ -145,26 +145,31 @@ theorem bft : net.BFT := by
     rw [seq_eq x hx, seq_eq y hy] at hs
     omega
 
+theorem roots_iff (g : Nat) (r : Root) :
+    r ∈ frameRoots g ↔ (r.frame = g ∧ net.IsRoot r.id g ∧ r.validator = net.creator r.id) := by
+  revert g r
+  intro g r
+  rw [isRoot_iff, creator_zero]
+  unfold frameRoots
+  by_cases hg : 1 ≤ g ∧ g ≤ 3
+  · rw [if_pos hg, List.mem_singleton]
+    constructor
+    · intro h; subst h; exact ⟨rfl, ⟨by show g - 1 < 3; omega, by show g = g - 1 + 1; omega⟩, rfl⟩
+    · rintro ⟨h1, ⟨_, h3⟩, h4⟩
+      cases r
+      simp only at h1 h3 h4
+      simp only [Root.mk.injEq]
+      omega
+  · rw [if_neg hg]
+    constructor
+    · intro h; cases h
+    · rintro ⟨_, ⟨h2, h3⟩, _⟩; omega
+
 theorem setup (f : Nat) (hf : f < 4294967296) : Setup net vals f observe frameRoots :=
   { vals := { canon := rfl, total := rfl, limit := by decide }
     obs := by intro a b; unfold observe; rw [decide_eq_true_iff, fc_iff]
-    roots := by
-      intro g r
-      rw [isRoot_iff, creator_zero]
-      unfold frameRoots
-      by_cases hg : 1 ≤ g ∧ g ≤ 3
-      · rw [if_pos hg, List.mem_singleton]
-        constructor
-        · intro h; subst h; exact ⟨rfl, ⟨by show g - 1 < 3; omega, by show g = g - 1 + 1; omega⟩, rfl⟩
-        · rintro ⟨h1, ⟨_, h3⟩, h4⟩
-          cases r
-          simp only at h1 h3 h4
-          simp only [Root.mk.injEq]
-          omega
-      · rw [if_neg hg]
-        constructor
-        · intro h; cases h
-        · rintro ⟨_, ⟨h2, h3⟩, _⟩; omega
+    roots_sound := fun g r h => (roots_iff g r).1 h
+    roots_seen := roots_seen_of_iff roots_iff
     nodup := by
       intro g; unfold frameRoots
       by_cases hg : 1 ≤ g ∧ g ≤ 3
